@@ -7,7 +7,7 @@ abstractly over the complete finite configuration space
     grid family × dimension ∈ {Cartesian 1,2,3; polar 2; spherical 3; cylindrical 3}
     × modes ∈ {0, >0} × interface width ∈ {not given, 0, positive} × refine ∈ {off, on}
 
-(72 configurations).  Supported subset of Python in the fragment: if/elif/else,
+(108 configurations).  Supported subset of Python in the fragment: if/elif/else,
 comparisons with constants, ``is (not) None``, ``isinstance`` on the grid or field,
 ``and/or/not``, class-name assignment, dict stores, ``from_droplet`` conversion, raise.
 Anything else ⇒ analysis error (never a verdict).  Periodicity and the threshold rule are
@@ -123,6 +123,15 @@ class Interp:
             return all(vals) if isinstance(n.op, ast.And) else any(vals)
         if isinstance(n, ast.UnaryOp) and isinstance(n.op, ast.Not):
             return not self.ev(n.operand)
+        if isinstance(n, ast.UnaryOp) and isinstance(n.op, ast.USub):
+            v = self.ev(n.operand)
+            if isinstance(v, (int, float)) and not isinstance(v, bool):
+                return -v
+            raise Unsupported(f"CLASSSEL: expression `{U(n)[:50]}` not interpretable", rule="CLASSSEL")
+        if isinstance(n, ast.BinOp):
+            return self.arith(n.op, self.ev(n.left), self.ev(n.right), n)
+        if isinstance(n, ast.IfExp):
+            return self.ev(n.body) if self.ev(n.test) else self.ev(n.orelse)
         if isinstance(n, (ast.List, ast.Tuple, ast.Set)):
             return [self.ev(e) for e in n.elts]
         if isinstance(n, ast.Dict) and not n.keys:
@@ -155,6 +164,24 @@ class Interp:
             raise Unsupported(f"CLASSSEL: call `{U(n)[:50]}` not interpretable", rule="CLASSSEL")
         raise Unsupported(f"CLASSSEL: expression `{U(n)[:50]}` not interpretable", rule="CLASSSEL")
 
+    def arith(self, op, l, r, n):
+        num = lambda v: isinstance(v, (int, float)) and not isinstance(v, bool)
+        if num(l) and num(r):
+            try:
+                if isinstance(op, ast.Add):
+                    return l + r
+                if isinstance(op, ast.Sub):
+                    return l - r
+                if isinstance(op, ast.Mult):
+                    return l * r
+                if isinstance(op, ast.FloorDiv):
+                    return l // r
+                if isinstance(op, ast.Mod):
+                    return l % r
+            except ZeroDivisionError:
+                raise Raised("ZeroDivisionError")
+        raise Unsupported(f"CLASSSEL: arithmetic `{U(n)[:50]}` not interpretable", rule="CLASSSEL")
+
     def droplet_mro(self, cname):
         ci = self.m.cls(cname)
         return {c.name for c in self.m.mro(ci)}
@@ -175,6 +202,10 @@ class Interp:
                     self.env[t.value.id][self.ev(t.slice)] = v
                 else:
                     raise Unsupported(f"CLASSSEL: store `{U(t)}` not interpretable", rule="CLASSSEL")
+            elif isinstance(s, ast.AugAssign) and isinstance(s.target, ast.Name) and s.target.id in self.env:
+                self.env[s.target.id] = self.arith(s.op, self.env[s.target.id], self.ev(s.value), s)
+            elif isinstance(s, ast.Pass):
+                continue
             elif isinstance(s, ast.Raise):
                 exc = s.exc
                 raise Raised(dotted(exc.func) if isinstance(exc, ast.Call) else dotted(exc))
@@ -232,11 +263,11 @@ def check_classsel(ctx: Ctx):
     wdef = [s for s in rf.node.body if isinstance(s, ast.If) and "interface_width" in U(s.test) and "None" in U(s.test)]
     n_cfg, bad = 0, []
     samples = []
-    for (family, dim), modes, width, refine in itertools.product(FAMILIES, (0, 2), (None, 0.0, 1.5), (False, True)):
+    for (family, dim), modes, width, refine in itertools.product(FAMILIES, (0, 2, 3), (None, 0.0, 1.5), (False, True)):
         n_cfg += 1
         grid = {"__isa__": GRID_ISA[family], "dim": dim}
         env = {
-            "interface_width": width, "modes": modes, "dim": dim, field: {"__isa__": {"ScalarField"}, "grid": grid}, f"{field}.grid": grid,
+            "interface_width": width, "modes": modes, "dim": dim, "refine": refine, field: {"__isa__": {"ScalarField"}, "grid": grid}, f"{field}.grid": grid,
             dv: Drop("SphericalDroplet", {"position": "p", "radius": "r"}), "droplets": [],
         }
         want = expected(family, dim, modes, width, refine)
@@ -320,7 +351,7 @@ def check(ctx: Ctx):
     m = ctx.model
     ctx.explain(
         "CLASSSEL: exhaustive abstract evaluation of the class-selection fragment of locate_droplets and the promotion of refine_droplet over "
-        "all 72 configurations, compared with the table of the property; SLICE: the fragment reads only configuration variables; LAYOUT: "
+        "all 108 configurations, compared with the table of the property; SLICE: the fragment reads only configuration variables; LAYOUT: "
         "dtype fields = constructor parameters for every class (conversions constructible); LOCATORS; NONETEST on the width setter."
     )
     check_classsel(ctx)
